@@ -293,7 +293,7 @@ ASSUMPTIONS = [
 ]
 NOT_COVERED = ["magnitude of the parameter change"]
 
-REPLAY = {"": "c05_frames", "train_ensemble": "c17_pets"}
+REPLAY = {"": "c05_frames", "train_ensemble": "c17_pets", "train_td7": "loops_native"}
 
 # "An update with a non-zero gradient does change the trained component" for the PETS ensemble also needs
 # train_ensemble to hand at least one batch to train_epoch (whose frame and update are proved above): that is
@@ -301,3 +301,10 @@ REPLAY = {"": "c05_frames", "train_ensemble": "c17_pets"}
 from .C17 import TASKS as _C17_TASKS  # noqa: E402
 
 TASKS = TASKS + [t for t in _C17_TASKS if t.name.startswith("train_ensemble")]
+
+# "aliasing between modules" (the property's own example): the update routines above are proved on DISTINCT modules; that
+# train_td7 - the one routine that builds wrapper objects around its components - hands pairwise distinct online / fixed /
+# target modules to its training iteration is an obligation of its loop contract (contracts/loops.py, _td7_train_step)
+from . import loops as _loops  # noqa: E402
+
+TASKS = TASKS + _loops.td7_tasks({"C05"})
